@@ -94,7 +94,13 @@ func (r *runner) execRegistryOp(t *engine.Task, ti, oi int, op *Op, res *OpResul
 			m[n] = float64(op.Version)
 		}
 		if op.Invalid == "name" {
-			m = map[string]interface{}{"bad name": float64(op.Version)}
+			// an invalid name, alone or next to valid entries: the whole
+			// registration must be rejected and nothing may change - now or
+			// in any later registration
+			if op.Version%2 == 0 {
+				m = map[string]interface{}{}
+			}
+			m[badNames[op.Version%len(badNames)]] = float64(op.Version)
 		}
 		var err error
 		if op.Kind == "gregvars" {
@@ -111,7 +117,10 @@ func (r *runner) execRegistryOp(t *engine.Task, ti, oi int, op *Op, res *OpResul
 		}
 		switch op.Invalid {
 		case "name":
-			m = map[string]jsonata.Extension{"bad-name": {Func: func() float64 { return v }}}
+			if op.Version%2 == 0 {
+				m = map[string]jsonata.Extension{}
+			}
+			m[badNames[op.Version%len(badNames)]] = jsonata.Extension{Func: func() float64 { return v }}
 		case "func":
 			// three invalid function shapes; each is offered many times in
 			// one process (a shape rejected once must be rejected again)
@@ -140,6 +149,10 @@ func (r *runner) execRegistryOp(t *engine.Task, ti, oi int, op *Op, res *OpResul
 		res.Outcome = outcomeJSON(v, err)
 	}
 }
+
+// badNames are not valid names (a valid name consists of letters, digits and
+// underscores only).
+var badNames = []string{"bad name", "bad-name", "é-", "größe.x", "日 本", "a$", "", "x.y", "tab\tname"}
 
 func okErr(err error) string {
 	if err != nil {
